@@ -218,6 +218,9 @@ def _pure(e, depth=0):
         return all(_pure(v, depth + 1) for v in e.values)
     if isinstance(e, ast.UnaryOp) and isinstance(e.op, ast.Not):
         return _pure(e.operand, depth + 1)
+    if isinstance(e, ast.Tuple) and e.elts:
+        # an immutable table kept in a local
+        return all(_pure(x, depth + 1) for x in e.elts)
     if isinstance(e, ast.Call):
         if isinstance(e.func, ast.Name) and e.func.id in (
                 'len', 'isinstance', 'issubclass', 'type', 'id', 'bool',
@@ -242,7 +245,11 @@ class _Subst(ast.NodeTransformer):
     def visit_Name(self, n):
         if n.id == self.name and isinstance(n.ctx, ast.Load):
             self.n += 1
-            return ast.copy_location(copy.deepcopy(self.expr), n)
+            new = ast.copy_location(copy.deepcopy(self.expr), n)
+            if isinstance(new, ast.Tuple):
+                for x in ast.walk(new):
+                    x._tn_new = True
+            return new
         return n
 
 
